@@ -302,7 +302,12 @@ pub fn run_guarded<S: Sub>(s: &S, case: &S::Case, cx: &Ctx) -> CaseResult {
     match res {
         Ok(r) => r,
         Err(_) => {
-            let msg = LAST_PANIC.with(|p| p.borrow_mut().take()).unwrap_or_else(|| "panic".into());
+            // the panic may have happened on a helper thread (executor pool, rayon): fall back to the last
+            // panic seen anywhere in the process
+            let msg = LAST_PANIC
+                .with(|p| p.borrow_mut().take())
+                .or_else(|| LAST_BG_PANIC.lock().ok().and_then(|mut g| g.take()))
+                .unwrap_or_else(|| "panic".into());
             Err(Failure::new(panic_sig(&msg), msg))
         }
     }
